@@ -166,6 +166,47 @@ extern "C" void h_lex_hist(void) {
    vp_done();
 }
 
+// ---- (1e) long insertion sequences: C08_LONG symbolic keys whose *order type* is fixed by a chosen pattern (ascending, descending,
+// zig-zag, organ pipe, or one of 28 pseudo-random permutations); the key values stay symbolic, every comparison outcome is
+// implied by the assumed order and decided by the solver.  Both flavours, invariants after every insertion.
+#ifndef C08_LONG
+#define C08_LONG 16
+#endif
+namespace {
+   void order_type(unsigned pattern, unsigned* rank) {      // rank[i] = position of the i-th inserted key in sorted order
+      const unsigned n = C08_LONG;
+      if (pattern == 0) for (unsigned i = 0; i < n; ++i) rank[i] = i;
+      else if (pattern == 1) for (unsigned i = 0; i < n; ++i) rank[i] = n - 1 - i;
+      else if (pattern == 2) for (unsigned i = 0; i < n; ++i) rank[i] = (i % 2 == 0) ? i / 2 : n - 1 - i / 2;
+      else if (pattern == 3) for (unsigned i = 0; i < n; ++i) rank[i] = (i < n / 2) ? 2 * i : 2 * (n - 1 - i) + 1;
+      else {                                                  // Fisher-Yates driven by an LCG seeded with the pattern number
+         for (unsigned i = 0; i < n; ++i) rank[i] = i;
+         unsigned x = pattern * 2654435761u + 12345u;
+         for (unsigned i = n - 1; i > 0; --i) { x = x * 1664525u + 1013904223u; unsigned j = (x >> 16) % (i + 1); unsigned t = rank[i]; rank[i] = rank[j]; rank[j] = t; }
+      }
+   }
+}
+extern "C" void h_long_orders(void) {
+   unsigned pattern = vp_pick(32); bool owning = vp_flag();
+   unsigned rank[C08_LONG]; order_type(pattern, rank);
+   int keys[C08_LONG]; int by_rank[C08_LONG];
+   for (unsigned i = 0; i < C08_LONG; ++i) { keys[i] = (int)(nondet_ulong() & 0xffff); by_rank[rank[i]] = keys[i]; }
+   for (unsigned r = 0; r + 1 < C08_LONG; ++r) vp_assume(by_rank[r] < by_rank[r + 1]);        // the order type; values stay symbolic
+   if (owning) {
+      using Tree = Shape<rb::container<int>, rb::node<int>>; Tree* t = new Tree; int* where[C08_LONG];
+      auto cmp = [](const rb::node<int>& a, const rb::node<int>& b) { return IntCmp{}(a.data, b.data); };
+      for (unsigned i = 0; i < C08_LONG; ++i) { where[i] = t->insert(keys[i], IntCmp{}); vp_assert(t->size() == (std::ptrdiff_t)i + 1, 4); check_shape(t->top(), i + 1, cmp, 10); }
+      for (unsigned i = 0; i < C08_LONG; ++i) vp_assert(t->find(keys[i], IntCmp{}) == where[i], 5);
+   } else {
+      using Tree = Shape<rb::chain<INode>, INode>; Tree* t = new Tree; INode* nodes[C08_LONG];
+      auto ncmp = [](const INode& a, const INode& b) { return IntCmp{}(a.key, b.key); };
+      auto kcmp = [](const INode& a, int k) { return IntCmp{}(a.key, k); };
+      for (unsigned i = 0; i < C08_LONG; ++i) { nodes[i] = new INode; nodes[i]->key = keys[i]; t->insert(nodes[i], ncmp); vp_assert(t->size() == (std::ptrdiff_t)i + 1, 4); check_shape(t->top(), i + 1, ncmp, 10); }
+      for (unsigned i = 0; i < C08_LONG; ++i) vp_assert(t->find(keys[i], kcmp) == nodes[i], 5);
+   }
+   vp_done();
+}
+
 // ---- (2) one inductive step from an arbitrary valid tree laid out on a complete skeleton of height H
 namespace {
    constexpr int SLOTS = (1 << C08_H) - 1;
